@@ -49,6 +49,8 @@ def fatal_end(text):
 # the login server
 # --------------------------------------------------------------------------------------------
 def telnet_script(sp):
+    """options: needs_kick (silent until a return arrives), no_user_prompt (a line that asks for the password
+    only), reject_first = n (the first n complete attempts are rejected whatever was typed: a re-prompt)"""
     nl = sp["nl"]
     out = sp["banner"]
     rounds = 0
@@ -58,13 +60,17 @@ def telnet_script(sp):
         while line != b"":
             line = yield ("idle", b"")
     while True:
-        user = yield ("login", out + sp["user_prompt"])
-        if user == b"":
-            out = nl                      # an empty line at the login prompt: prompt again
-            continue
-        pw = yield ("password", (user if sp["echo"] else b"") + nl + sp["pass_prompt"])
+        if sp.get("no_user_prompt"):
+            user = sp["valid"]["user"]
+            pw = yield ("password", out + sp["pass_prompt"])
+        else:
+            user = yield ("login", out + sp["user_prompt"])
+            if user == b"":
+                out = nl                      # an empty line at the login prompt: prompt again
+                continue
+            pw = yield ("password", (user if sp["echo"] else b"") + nl + sp["pass_prompt"])
         rounds += 1
-        if (user, pw) == (sp["valid"]["user"], sp["valid"]["pass"]):
+        if (user, pw) == (sp["valid"]["user"], sp["valid"]["pass"]) and rounds > sp.get("reject_first", 0):
             break
         if sp["rounds"] is not None and rounds >= sp["rounds"]:
             if sp["after"] == "close":
@@ -80,6 +86,9 @@ def telnet_script(sp):
 
 
 def ssh_script(sp):
+    """options: fatal_start, phrase_prompt (an encrypted identity is tried first), phrase_tries, empty_skips_key
+    (OpenSSH: an empty passphrase gives up on the key at once), reject_first = n (the first n passphrases are
+    refused whatever was typed: a re-prompt), pass_tries"""
     nl = sp["nl"]
     out = sp["banner"]
     if sp.get("fatal_start"):
@@ -90,11 +99,11 @@ def ssh_script(sp):
         while True:
             ph = yield ("passphrase", out + sp["phrase_prompt"])
             tries += 1
-            if ph == sp["valid"]["phrase"]:
+            if ph == sp["valid"]["phrase"] and tries > sp.get("reject_first", 0):
                 ok = True
                 break
             out = nl
-            if tries >= sp.get("phrase_tries", 3):
+            if tries >= sp.get("phrase_tries", 3) or (ph == b"" and sp.get("empty_skips_key")):
                 break
     if not ok:
         tries = 0
@@ -333,6 +342,41 @@ class AsyncT(_Common, AsyncTransport):
         self._write(channel_input)
 
 
+class _Hist:
+    """ONE transport object that is opened several times: every open() connects to the next server session
+    (a fresh login server and chunking policy), as a driver that is opened, closed and opened again does"""
+    def _init_hist(self, sessions, kw):
+        self.sessions = list(sessions)
+        self.kw = kw
+        self.si = -1
+        self._init(NullServer(), {"type": "whole"}, **kw)
+        self.opened = False
+
+    def _connect(self):
+        self.si += 1
+        spec, pol = self.sessions[self.si]
+        self._init(LoginServer(spec), pol, **self.kw)
+
+
+class HistSyncT(_Hist, SyncT):
+    def __init__(self, sessions, bta=None, **kw):
+        Transport.__init__(self, bta or _bta())
+        self._init_hist(sessions, kw)
+
+    def open(self):
+        self._connect()
+
+
+class HistAsyncT(_Hist, AsyncT):
+    def __init__(self, sessions, bta=None, **kw):
+        AsyncTransport.__init__(self, bta or _bta())
+        self.real_expiry = False
+        self._init_hist(sessions, kw)
+
+    async def open(self):
+        self._connect()
+
+
 # --------------------------------------------------------------------------------------------
 # clock and asyncio proxy
 # --------------------------------------------------------------------------------------------
@@ -523,13 +567,13 @@ def run_events(stack, kind, events, creds, prompt=None, timeout_ops=30.0):
     return run_channel(stack, kind, t, creds, channel_args(prompt, timeout_ops))
 
 
-def run_driver(stack, kind, spec, policy, creds, driver="generic", timeout_ops=30.0):
-    """the whole driver.open() over the scripted transport (GenericDriver / Driver of the stack)"""
+def _make_driver(stack, kind, creds, driver, timeout_ops):
     from scrapli.driver import AsyncDriver, AsyncGenericDriver, Driver, GenericDriver
     sync = stack == "sync"
     cls = {("generic", True): GenericDriver, ("generic", False): AsyncGenericDriver,
            ("base", True): Driver, ("base", False): AsyncDriver}[(driver, sync)]
     tname = ("telnet" if sync else "asynctelnet") if kind == "telnet" else "system"
+
     def _noop(conn):
         return None
 
@@ -537,9 +581,15 @@ def run_driver(stack, kind, spec, policy, creds, driver="generic", timeout_ops=3
         return None
 
     # on_open: GenericDriver's default drains the login with a get_prompt (a return); the observation ends with the login
-    d = cls(host="sim", transport=tname, auth_username=creds["user"].decode(), auth_password=creds["pass"].decode(),
-            auth_private_key_passphrase=creds["phrase"].decode(), auth_strict_key=False, timeout_ops=timeout_ops,
-            timeout_transport=0, timeout_socket=0, on_open=_noop if sync else _anoop)
+    return cls(host="sim", transport=tname, auth_username=creds["user"].decode(), auth_password=creds["pass"].decode(),
+               auth_private_key_passphrase=creds["phrase"].decode(), auth_strict_key=False, timeout_ops=timeout_ops,
+               timeout_transport=0, timeout_socket=0, on_open=_noop if sync else _anoop)
+
+
+def run_driver(stack, kind, spec, policy, creds, driver="generic", timeout_ops=30.0):
+    """the whole driver.open() over the scripted transport (GenericDriver / Driver of the stack)"""
+    sync = stack == "sync"
+    d = _make_driver(stack, kind, creds, driver, timeout_ops)
     srv = LoginServer(spec)
     t = (SyncT if sync else AsyncT)(srv, policy, bta=d._base_transport_args)
     d.transport = t
@@ -573,6 +623,86 @@ def run_driver(stack, kind, spec, policy, creds, driver="generic", timeout_ops=3
     r = _result(out, t)
     r["prompt_pattern"] = d.channel._base_channel_args.comms_prompt_pattern
     return r
+
+
+def run_history(stack, kind, sessions, creds, level="channel", driver="base", prompt=None, timeout_ops=30.0):
+    """several logins on ONE object: level "channel": one Channel / AsyncChannel, channel_authenticate_* called once per
+    session; level "driver": one driver, open() ... close() once per session.  The transport object is the same all
+    along; each open() of it connects to the next session (spec, policy).  -> one result per login"""
+    sync = stack == "sync"
+    d = ch = None
+    if level == "driver":
+        d = _make_driver(stack, kind, creds, driver, timeout_ops)
+        t = (HistSyncT if sync else HistAsyncT)(sessions, bta=d._base_transport_args)
+        d.transport = t
+        d.channel.transport = t
+    else:
+        t = (HistSyncT if sync else HistAsyncT)(sessions)
+        ch = (Channel if sync else AsyncChannel)(transport=t, base_channel_args=channel_args(prompt, timeout_ops))
+    results = []
+
+    def classify(e):
+        if isinstance(e, (KeyboardInterrupt, SystemExit, asyncio.CancelledError)):
+            raise e
+        return _classify(e)
+
+    def snap(out):
+        r = _result(out, t)
+        results.append(r)
+
+    _Clock.transport = t
+    try:
+        if sync:
+            for _ in sessions:
+                try:
+                    if d is not None:
+                        d.open()
+                    else:
+                        t.open()
+                        ch.open()
+                        _call_sync(kind, ch, creds)
+                    out = "ok"
+                except BaseException as e:  # noqa
+                    out = classify(e)
+                snap(out)
+                try:
+                    if d is not None:
+                        d.close()
+                    else:
+                        t.close()
+                        ch.close()
+                except Exception:  # noqa
+                    pass
+        else:
+            async def go():
+                for _ in sessions:
+                    try:
+                        if d is not None:
+                            await d.open()
+                        else:
+                            await t.open()
+                            ch.open()
+                            await _call_async(kind, ch, creds)
+                        out = "ok"
+                    except BaseException as e:  # noqa
+                        out = classify(e)
+                    snap(out)
+                    try:
+                        if d is not None:
+                            await d.close()
+                        else:
+                            t.close()
+                            ch.close()
+                    except Exception:  # noqa
+                        pass
+            loop = asyncio.new_event_loop()
+            try:
+                loop.run_until_complete(go())
+            finally:
+                loop.close()
+    finally:
+        _Clock.transport = None
+    return results
 
 
 # --------------------------------------------------------------------------------------------
@@ -754,6 +884,25 @@ def safety_oracle(kind, result, creds, pc, states=True):
             if i + 1 >= len(hist) or hist[i + 1][0] != "w":
                 bad.append("credential %s not followed by a return" % c)
             since = b""
+    return bad
+
+
+def own_prompt_oracle(result, creds):
+    """the device-side reading of "each credential is written only in response to its own prompt" for ANY configured
+    credentials (empty ones included): a prompt state only ever receives ITS credential or an empty line, each prompt
+    at most twice its credential, and nothing but empty lines is typed into the shell / after the hang-up"""
+    own = {"login": creds["user"], "password": creds["pass"], "passphrase": creds["phrase"]}
+    what = {creds["user"]: "the user name", creds["pass"]: "the password", creds["phrase"]: "the key passphrase"}
+    bad, counts = [], {}
+    for (state, line, _) in result["log"]:
+        if line == b"":
+            continue
+        if own.get(state) != line:
+            bad.append("%s (%r) typed at the %s prompt" % (what.get(line, "something else"), line, state))
+        else:
+            counts[state] = counts.get(state, 0) + 1
+            if counts[state] == 3:
+                bad.append("credential of state %s submitted a third time" % state)
     return bad
 
 
